@@ -95,6 +95,8 @@ def overflow_values(kind) -> list:
         return [NAME127 + 'zz']
     if kind == 'name127':
         return [NAME127 + 'z']
+    if kind == 'f32':
+        return [1e39, -3.5e38]       # finite, but beyond the 32-bit float the field stores (would have to become an infinity)
     return []
 
 
@@ -916,6 +918,10 @@ def run_case(acc: core.Acc, case: dict) -> None:
     stage = 'construct'
     try:
         G.assign_views(bsp, world)
+        if case.get('flip_own'):
+            for ent in bsp.ents.entities:
+                for o in ent.outputs:
+                    o.comma_sep = not case['sep']
         if case.get('also_read'):
             for other in G.VIEWS:
                 if other not in world:
@@ -1118,6 +1124,11 @@ def enum_ents(depth: int):
                 tag = 'output_delay_precision' if any(k == 6 and v in (2.0 ** -10, 1234567.0, G.F32_MAX) for k, v in combo) else 'output'
                 yield {'fam': 'ents', 'layout': lay, 'world': w, 'tag': tag, 'sep': sep,
                        'devs_doc': [list(c) for c in combo] + ['comma' if comma else 'esc']}
+                if sep is not None and len(combo) == 1:
+                    # the forced separator differs from the flag the output object itself carries (an output created with the default
+                    # flag and added to a map compiled with the other separator): the lump is written with the forced one, nothing else changes
+                    yield {'fam': 'ents', 'layout': lay, 'world': copy.deepcopy(w), 'tag': tag, 'sep': sep, 'flip_own': True,
+                           'devs_doc': [list(c) for c in combo] + ['comma' if comma else 'esc', 'own flag is the other separator']}
         # several outputs on one entity, mixed with keyvalues
         w = fam.base(lay, 2)
         w['ents'][1]['outs'] = [['OnX', None, 't', 'A', None, '', 0.0, -1, comma], ['OnX', None, 't', 'A', None, '', 0.0, -1, comma],
